@@ -1,3 +1,6 @@
+import Driver.C02
+import Driver.C14
+import Driver.C13
 import Driver.C18
 import Driver.C11
 import Driver.C06
@@ -9,4 +12,7 @@ def main (args : List String) : IO UInt32 := do
   | ["C06"] => Driver.C06.main; return 0
   | ["C01"] => Driver.C01.main; return 0
   | ["C18"] => Driver.C18.main; return 0
+  | ["C13"] => Driver.C13.main; return 0
+  | ["C14"] => Driver.C14.main; return 0
+  | ["C02"] => Driver.C02.main; return 0
   | _ => IO.eprintln "usage: stirdriver <C01..C20>"; return 2
